@@ -24,7 +24,7 @@ COMPONENTS = {
     'reference': ['sim/ref_format.py reader and writer'],
 }
 ASSUMPTIONS = ['the reference reader/writer encodes my reading of the README and of the statement of C14']
-PROBES = ['reverse_epoch_timestamps', 'reverse_legacy_metadata', 'reverse_encrypted', 'reverse_foreign_snapshot', 'delete', 'clean']
+PROBES = ['reverse_file_listing', 'reverse_epoch_timestamps', 'reverse_legacy_metadata', 'reverse_encrypted', 'reverse_foreign_snapshot', 'delete', 'clean']
 TIERS = {'quick': {'budget_s': 70, 'batch': 10}, 'thorough': {'budget_s': 900, 'batch': 20}}
 ORACLES = ('store', 'format', 'exact')
 
@@ -184,6 +184,18 @@ def run_reverse(case):
         exp = sorted((m['name'], str(len(m['files'])) if m['mine'] else '--') for m in model)
         if rows != exp:
             viol.append({'cls': 'reverse-listing', 'sig': {}, 'msg': f'list-snapshots rows {rows} != expected {exp}'})
+            return _res(W, viol, probes, rv)
+        # the file listing shows the recorded times of both metadata variants (seconds before 1.3, nanoseconds since)
+        r = W.list_files(me, opts, header=False, columns=_cols('FileListColumn', ['snapshot_name', 'path', 'mtime']))
+        if not r.ok:
+            viol.append({'cls': 'reverse-listing-failed', 'sig': {'cmd': 'list-files'}, 'msg': f'list-files failed: {r.outcome()} {r.exc!r}'})
+            return _res(W, viol, probes, rv)
+        rows = sorted(tuple(c.strip() for c in l.split('\t')) for l in r.stdout.splitlines() if l.strip())
+        exp = sorted((m['name'], p.strip(), history._fmt_ns(v[1])) for m in model if m['mine'] for p, v in m['files'].items())
+        probes['reverse_file_listing'] = 1
+        if rows != exp:
+            bad = [x for x in rows if x not in exp][:2], [x for x in exp if x not in rows][:2]
+            viol.append({'cls': 'reverse-file-listing', 'sig': {}, 'msg': f'list-files of a reference-written repository: rows {bad[0]} where {bad[1]} expected'})
         return _res(W, viol, probes, rv)
     finally:
         W.close()
